@@ -293,31 +293,15 @@ func caseTerms(c *hcase) []string {
 			sideTerm(c, c.S, 2*c.ID+1, 2*c.ID, c.SPayload, c.CPayload, c.C.Code == 0),
 		}
 	case "srv":
-		exp := c.Script.appSent()
+		exp := c.Peer.AppSent
 		ok := c.Peer.OK && bytes.Equal(c.Peer.Got, c.SPayload) && bytes.Equal(c.Peer.TheirId, c.SId)
 		return []string{sideTerm(c, c.S, 2*c.ID+1, 0, c.SPayload, exp, ok)}
 	case "cli":
-		exp := c.Script.appSent()
+		exp := c.Peer.AppSent
 		ok := c.Peer.OK && bytes.Equal(c.Peer.Got, c.CPayload) && bytes.Equal(c.Peer.TheirId, c.CId)
 		return []string{sideTerm(c, c.C, 2*c.ID, 0, c.CPayload, exp, ok)}
 	}
 	return nil
-}
-
-// appSent is what the scripted peer puts on the wire after its handshake.  A plaintext script that
-// is cut short (Truncate) stops inside the early data and closes its side: nothing follows.
-func (sp *script) appSent() []byte {
-	if !sp.MSE && sp.Truncate > 0 {
-		plain := append(sp.handshake(), sp.Early...)
-		if sp.Truncate < len(plain) {
-			plain = plain[:sp.Truncate]
-		}
-		if len(plain) <= 68 {
-			return nil
-		}
-		return append([]byte(nil), plain[68:]...)
-	}
-	return append(append([]byte(nil), sp.Early...), sp.Late...)
 }
 
 // ---------- generation ----------
